@@ -237,21 +237,25 @@ def make_ae(title='SRV', supported_ts=None, max_pdu_length=65536, cls=None, **kw
     return ae
 
 
-def rq_spec(contexts, max_len=16384, called='SRV', calling='CLI', app='1.2.840.10008.3.1.1.1', extra_subs=()):
+def rq_spec(contexts, max_len=16384, called='SRV', calling='CLI', app='1.2.840.10008.3.1.1.1', extra_subs=(), ver=1,
+            reserved=0):
     """A-ASSOCIATE-RQ spec: contexts = [(id, abstract, [ts..])]."""
     items = [{'t': 0x10, 'r': 0, 'name': app}]
     for cid, abs_, tss in contexts:
         items.append({'t': 0x20, 'r1': 0, 'id': cid, 'r2': 0, 'r3': 0, 'r4': 0,
                       'abs': {'r': 0, 'name': abs_}, 'ts': [{'r': 0, 'name': t} for t in tss]})
     items.append({'t': 0x50, 'r': 0, 'subs': [{'t': 0x51, 'r': 0, 'max': max_len}] + list(extra_subs)})
-    return {'t': 1, 'r1': 0, 'ver': 1, 'r2': 0, 'called': called, 'calling': calling, 'r3': [0] * 8, 'items': items}
+    return {'t': 1, 'r1': reserved & 0xFF, 'ver': ver, 'r2': reserved & 0xFFFF, 'called': called, 'calling': calling,
+            'r3': [reserved] * 8, 'items': items}
 
 
-def ac_spec(answers, max_len=16384, called='SRV', calling='CLI', app='1.2.840.10008.3.1.1.1', extra_subs=()):
+def ac_spec(answers, max_len=16384, called='SRV', calling='CLI', app='1.2.840.10008.3.1.1.1', extra_subs=(), ver=1,
+            reserved=0):
     """A-ASSOCIATE-AC spec: answers = [(id, result, ts)]."""
     items = [{'t': 0x10, 'r': 0, 'name': app}]
     for cid, res, ts in answers:
         items.append({'t': 0x21, 'r1': 0, 'id': cid, 'r2': 0, 'result': res, 'r3': 0, 'ts': {'r': 0, 'name': ts}})
     subs = ([{'t': 0x51, 'r': 0, 'max': max_len}] if max_len is not None else []) + list(extra_subs)
     items.append({'t': 0x50, 'r': 0, 'subs': subs})
-    return {'t': 2, 'r1': 0, 'ver': 1, 'r2': 0, 'called': called, 'calling': calling, 'r3': [0] * 8, 'items': items}
+    return {'t': 2, 'r1': reserved & 0xFF, 'ver': ver, 'r2': reserved & 0xFFFF, 'called': called, 'calling': calling,
+            'r3': [reserved] * 8, 'items': items}
